@@ -404,7 +404,8 @@ func runCrash(path string) {
 		switch args[0] {
 		case "set", "rm":
 			pending = append(pending, line)
-		case "save", "savecs", "rollback", "load", "loadow", "open", "new", "fresh", "import", "delfrom":
+		case "save", "savecs", "rollback", "load", "loadow", "open", "new", "fresh", "import":
+			// (DeleteVersionsFrom is not in this list: it leaves the uncommitted writes of the tree object in place)
 			if !strings.HasPrefix(res, "err") {
 				pending = nil
 			}
